@@ -983,6 +983,7 @@ def check(rep):
                 '(re-fragmenting) -> random socket chunking -> real _read_buffer -> real _build_message, bodies text x 9 encodings + '
                 'bytes, subsets of the 14 properties, frame_max in {9..40, 4096}; distinct = distinct input; non-trivial = '
                 'non-empty bytes / non-empty dict / sequence with a setter / multi-frame or with properties')
+    rep.rule += '; round trips are consumed through _build_message / build_inbound_messages / process_data_events / start_consuming with both auto_decode values, half are forwarded with Message.publish; byte cases include text led by a byte order mark; the loop-back broker enforces the negotiated frame size'
     rep.assumptions = [
         'Python 3 only: the PYTHON3 arms of compatibility.py are taken (Python 2 arms dead)',
         'dict keys are text, bytes or ints (no bool/float/None/tuple keys: Python identifies 1, True and 1.0 as keys; not modelled)',
